@@ -145,6 +145,7 @@ struct Run {
   std::function<void(Run &, const Step &)> extra_step;     // profile-specific step handler
   std::function<void(Run &)> after_step;                   // profile-specific invariant
   std::function<void(Run &)> at_end;                       // profile-specific history oracle
+  std::function<void(Run &)> before_destroy;               // runs after the drain, while the channel still exists
   std::vector<std::function<void(Run &)>> world_ready;     // called once the world has been reset and configured
   std::function<void(Run &, Req &)> on_done;               // profile-specific per-completion oracle
   std::function<bool(Run &, const Step &)> pre_req;          // may take over an S_REQ step (returns true if it did)
@@ -204,7 +205,8 @@ int peek_channel_opts(const ares_channel_t *ch, long *tries, long *timeout_ms, l
 
 // allocator ledger
 struct AllocLedger {
-  std::map<void *, size_t> live;
+  struct Blk { size_t size; long index; void *bt[10]; int nbt; };
+  std::map<void *, Blk> live;
   long calls = 0, fail_at = -1, failed = 0, bad_free = 0;
   bool active = false;
   void reset() { live.clear(); calls = 0; fail_at = -1; failed = 0; bad_free = 0; }
